@@ -18,7 +18,14 @@ else raises Untranslatable (fail closed).  Recognised shapes (v = local variable
         v |= E                                                 XClosure
     if node not in self.gen_map: <builds node_symbols from set expressions and node_scope.params>
     assert self.can_ignore(node), ...
-    self.in_[node] = v ; self.out[node] = v ; return prev != v
+    self.in_[node] = v ; self.out[node] = v ; return prev != v [or prev2 != v2]
+  edge-sensitive for header (fixes/C07-for-header-edge-sensitive.diff), both optional:
+    if node_scope.iterate_targets:
+      for n in node.next:
+        if not node_scope.enters_loop_body(n.ast_node):  v |= self.in_[n] & node_scope.iterate_targets
+                                                               (XInter XStateExit XLoopTargets)
+    for n in node.prev:  v |= self._edge_out(n, node)         join through the helper, whose body must be
+                                                               exactly the pinned one (EDGE_OUT_PINNED)
 Note (quirk kept out of the model, stated here): `gen = node_scope.read` followed by `gen -= ...` would mutate the
 scope's own set; it only happens with include_annotations=False, which no caller uses.
 """
@@ -54,7 +61,10 @@ class Engine(object):
             self.fail(self.tree, 'class %s not found' % cls)
         self.fn = self.method(meth)
         self.join = None         # ('next'|'prev', 'in_'|'out')
-        self.prev = None         # (var, map)
+        self.prev = None         # (var, map) of the first previous-state read
+        self.prevs = {}          # var -> map
+        self.compared_maps = set()
+        self.edge = False        # the join goes through _edge_out
         self.result = {}         # variant -> {'in_': sx, 'out': sx}
         self.compared = None
         self.gen_names = None
@@ -93,6 +103,8 @@ class Engine(object):
         if isinstance(e, ast.Attribute) and isinstance(e.value, ast.Name) and e.value.id in ('node_scope', 'fn_scope'):
             if env.get(e.value.id) != '<scope>':
                 self.fail(e, '%s is not bound to a scope here' % e.value.id)
+            if e.attr == 'iterate_targets' and e.value.id == 'node_scope':
+                return 'XLoopTargets'
             if e.attr not in FIELDS:
                 self.fail(e, 'unknown scope field %s' % e.attr)
             return '(%s %s)' % ('XScope' if e.value.id == 'node_scope' else 'XFnScope', FIELDS[e.attr])
@@ -138,9 +150,11 @@ class Engine(object):
             if isinstance(t, ast.Name):
                 m = self.is_self_map(s.value, 'node')
                 if m:
-                    if self.prev is not None:
+                    if m in self.prevs.values():
                         self.fail(s, 'second read of the previous state')
-                    self.prev = (t.id, m)
+                    if self.prev is None:
+                        self.prev = (t.id, m)
+                    self.prevs[t.id] = m
                     env[t.id] = '<prev>'
                     return
                 if self.is_getanno(s.value, 'node.ast_node', 'anno', 'Static', 'SCOPE'):
@@ -165,11 +179,19 @@ class Engine(object):
         if isinstance(s, ast.If):
             return self.if_(s, env, variant)
         if isinstance(s, ast.Return):
-            if not (isinstance(s.value, ast.Compare) and len(s.value.ops) == 1 and isinstance(s.value.ops[0], ast.NotEq)
-                    and isinstance(s.value.left, ast.Name) and isinstance(s.value.comparators[0], ast.Name)
-                    and self.prev and s.value.left.id == self.prev[0]):
-                self.fail(s, 'return shape')
-            self.compared = s.value.comparators[0].id
+            parts = s.value.values if isinstance(s.value, ast.BoolOp) and isinstance(s.value.op, ast.Or) else [s.value]
+            for c in parts:
+                if not (isinstance(c, ast.Compare) and len(c.ops) == 1 and isinstance(c.ops[0], ast.NotEq)
+                        and isinstance(c.left, ast.Name) and isinstance(c.comparators[0], ast.Name)
+                        and c.left.id in self.prevs):
+                    self.fail(s, 'return shape')
+                m = self.prevs[c.left.id]
+                # the current value compared must be the one stored into the same map
+                if self.result.get(variant, {}).get(m + '_var') != c.comparators[0].id:
+                    self.fail(s, 'the change test does not compare what is stored')
+                self.compared_maps.add(m)
+                if c.left.id == self.prev[0]:
+                    self.compared = c.comparators[0].id
             return
         self.fail(s, 'statement shape %s' % type(s).__name__)
 
@@ -181,6 +203,10 @@ class Engine(object):
             if len(s.body) == 1 and isinstance(s.body[0], ast.AugAssign) and isinstance(s.body[0].op, ast.BitOr) and \
                     isinstance(s.body[0].target, ast.Name):
                 m = self.is_self_map(s.body[0].value, s.target.id)
+                if m is None and ast.unparse(s.body[0].value) == 'self._edge_out(%s, node)' % s.target.id and s.iter.attr == 'prev':
+                    self.check_edge_out()
+                    self.edge = True
+                    m = 'out'
                 v = s.body[0].target.id
                 if m and v in env:
                     j = (s.iter.attr, m)
@@ -222,6 +248,14 @@ class Engine(object):
             return
         self.fail(s, 'for loop shape')
 
+    def check_edge_out(self):
+        m = self.method('_edge_out')
+        body = [x for x in m.body if not (isinstance(x, ast.Expr) and isinstance(x.value, ast.Constant))]
+        got = ' ; '.join(ast.unparse(x).replace('\n', ' ') for x in body)
+        got = ' '.join(got.split())
+        if [a.arg for a in m.args.args] != ['self', 'pred', 'node'] or got != EDGE_OUT_PINNED:
+            self.fail(m, '_edge_out differs from the pinned helper: %s' % got[:200])
+
     def check_lambda_check(self):
         m = self.method('lamba_check')
         src = [x for x in m.body if not (isinstance(x, ast.Expr) and isinstance(x.value, ast.Constant))]
@@ -255,6 +289,27 @@ class Engine(object):
             v = s.body[0].target.id
             e = self.expr(s.body[0].value, env)
             env[v] = '(XIfAnn %s (XDiff %s %s))' % (env[v], env[v], e)
+            return
+        if t == 'node_scope.iterate_targets':
+            # for header: on the edges that leave the loop the targets are not assigned
+            ok = (not s.orelse and len(s.body) == 1 and isinstance(s.body[0], ast.For) and not s.body[0].orelse and
+                  isinstance(s.body[0].target, ast.Name) and self.is_attr(s.body[0].iter, 'node') and
+                  self.join is not None and s.body[0].iter.attr == self.join[0] and len(s.body[0].body) == 1)
+            if ok:
+                lv = s.body[0].target.id
+                c = s.body[0].body[0]
+                ok = (isinstance(c, ast.If) and not c.orelse and len(c.body) == 1 and
+                      ast.unparse(c.test) == 'not node_scope.enters_loop_body(%s.ast_node)' % lv and
+                      isinstance(c.body[0], ast.AugAssign) and isinstance(c.body[0].op, ast.BitOr) and
+                      isinstance(c.body[0].target, ast.Name) and c.body[0].target.id in env)
+            if not ok:
+                self.fail(s, 'for-header exit-edge block shape')
+            a = c.body[0]
+            v = a.value
+            if not (isinstance(v, ast.BinOp) and isinstance(v.op, ast.BitAnd) and
+                    self.is_self_map(v.left, lv) == self.join[1] and ast.unparse(v.right) == 'node_scope.iterate_targets'):
+                self.fail(a, 'exit-edge accumulation shape')
+            env[a.target.id] = U(env[a.target.id], '(XInter XStateExit XLoopTargets)')
             return
         if t == 'node not in self.gen_map':
             return self.gen_map_block(s, env)
@@ -372,6 +427,15 @@ def annotator_maps(path, cls, spec):
     return out
 
 
+# body of reaching_definitions.Analyzer._edge_out as proposed in fixes/C07-for-header-edge-sensitive.diff (docstring
+# and comments dropped, whitespace normalised); modelled by Dataflow.rd_edge_out
+EDGE_OUT_PINNED = ("defs_out = self.out[pred] ; pred_scope = anno.getanno(pred.ast_node, anno.Static.SCOPE, default=None) ; "
+                   "if pred_scope is None or not pred_scope.iterate_targets or pred_scope.enters_loop_body(node.ast_node): return defs_out ; "
+                   "targets = pred_scope.iterate_targets ; surviving = _NodeState() ; "
+                   "surviving.value = {s: set(defs) for s, defs in self.in_[pred].value.items() if s in targets} ; "
+                   "return defs_out - set(targets) | surviving")
+
+
 HEADER = '(* GENERATED by tools/translate/%s from %s -- do not edit *)\nRequire Import MV.Flow.SetExpr.\n'
 
 
@@ -392,7 +456,9 @@ def translate_reachdef(repo):
         txt += 'Definition rd_%s_out : sx := %s.\n' % (v, e.result[v]['out'])
     txt += 'Definition rd_join_over_prev : bool := %s.\n' % ('true' if e.join[0] == 'prev' else 'false')
     txt += 'Definition rd_join_reads_out : bool := %s.\n' % ('true' if e.join[1] == 'out' else 'false')
-    txt += 'Definition rd_changed_compares_out : bool := %s.\n' % ('true' if e.prev[1] == 'out' else 'false')
+    txt += 'Definition rd_changed_compares_out : bool := %s.\n' % ('true' if 'out' in e.compared_maps else 'false')
+    txt += 'Definition rd_changed_compares_in : bool := %s.\n' % ('true' if 'in_' in e.compared_maps else 'false')
+    txt += 'Definition rd_edge_sensitive : bool := %s.\n' % ('true' if e.edge else 'false')
     load_in = name_load_uses(path)
     txt += 'Definition rd_name_load_reads_in : bool := %s.\n' % ('true' if load_in else 'false')
     return txt
